@@ -1,3 +1,35 @@
+//! seqx — bounded-exhaustive in-process enumerators against s4lib (engine E-SEQ).
+mod c16;
+mod out;
+
 fn main() {
-    println!("seqx placeholder");
+    let args: Vec<String> = std::env::args().collect();
+    let sub = args.get(1).map(|s| s.as_str()).unwrap_or("");
+    let tier = args
+        .iter()
+        .position(|a| a == "--tier")
+        .and_then(|i| args.get(i + 1))
+        .map(|s| s.as_str())
+        .unwrap_or("quick")
+        .to_string();
+    let replay = args
+        .iter()
+        .position(|a| a == "--replay")
+        .and_then(|i| args.get(i + 1))
+        .cloned();
+    match sub {
+        "c16" => {
+            if let Some(r) = replay {
+                let v: serde_json::Value = serde_json::from_str(&std::fs::read_to_string(&r).unwrap()).unwrap();
+                let name = v["replay"]["name"].as_str().unwrap_or("").to_string();
+                std::process::exit(if c16::replay(&name) { 0 } else { 1 });
+            }
+            c16::run(&tier)
+        }
+        "c16-long" => c16::run_long(),
+        _ => {
+            eprintln!("usage: seqx <c16|...> [--tier quick|thorough] [--replay FILE]");
+            std::process::exit(2);
+        }
+    }
 }
